@@ -84,14 +84,17 @@ func newCluster(dir string, n int, snapThr, trail uint64) (*cluster, error) {
 		c.ports = append(c.ports, p)
 	}
 	// ports +1/+2 are used for mgmt/http addresses (never bound here)
+	// a failed attempt (port taken, no leader in time on a loaded machine) must not leave nodes - and their store locks - behind
 	if err := c.start(0, true); err != nil {
 		return nil, err
 	}
 	if !waitLeader(c.nodes[0]) {
+		cq.Catch(c.stopAll)
 		return nil, fmt.Errorf("no leader")
 	}
 	for i := 1; i < n; i++ {
 		if err := c.start(i, false); err != nil {
+			cq.Catch(c.stopAll)
 			return nil, err
 		}
 	}
